@@ -42,7 +42,7 @@ End PathInd.
 Section Proofs.
 Variable pk : path -> option bool.
 
-Notation gm := (get_mutability pk).
+Notation gm := (get_mutability false pk).
 Notation susp := (suspect pk).
 
 Lemma same_pk_eq a b : same_pk a b = true -> a = b.
@@ -147,40 +147,132 @@ Proof.
 Qed.
 
 Theorem assign_sound e :
-  susp e false = false -> assign_accepted pk e = true -> place pk e <> Immut.
+  susp e false = false -> assign_accepted false pk e = true -> place pk e <> Immut.
 Proof. intros Hs. exact (proj2 (gm_characterised e true false Hs)). Qed.
 
 Theorem assign_complete e :
-  susp e false = false -> place pk e = Mut -> assign_accepted pk e = true.
+  susp e false = false -> place pk e = Mut -> assign_accepted false pk e = true.
 Proof. intros Hs. exact (proj1 (gm_characterised e true false Hs)). Qed.
 
 Theorem ref_mut_sound e :
-  susp e false = false -> ref_mut_accepted pk e = true -> place pk e <> Immut.
+  susp e false = false -> ref_mut_accepted false pk e = true -> place pk e <> Immut.
 Proof. intros Hs. exact (proj2 (gm_characterised e false false Hs)). Qed.
 
 Theorem ref_mut_complete e :
-  susp e false = false -> place pk e = Mut -> ref_mut_accepted pk e = true.
+  susp e false = false -> place pk e = Mut -> ref_mut_accepted false pk e = true.
 Proof. intros Hs. exact (proj1 (gm_characterised e false false Hs)). Qed.
 
 Theorem deref_type_directed e a :
   susp e true = false -> (is_mutable (gm e a true) = true <-> pk e = Some true).
 Proof. intros H. exact (gm_characterised e a true H). Qed.
 
+(* ---- the repaired variant (through_pointer) ------------------------------------------ *)
+Notation gmx := (get_mutability true pk).
+
+Lemma through_pointer_not_immut p r :
+  is_mutable (through_pointer true pk p r) = true -> pk p <> Some false /\ is_mutable r = true.
+Proof.
+  unfold through_pointer. destruct r; cbn; try discriminate.
+  destruct (pk p) as [[|]|]; cbn; intros H; try discriminate; split; congruence.
+Qed.
+
+(* FULL soundness, for every typing oracle and every path: whatever the repaired code
+   accepts is not immutable data. *)
+Lemma fixed_sound_gen : forall e a,
+  is_mutable (gmx e a false) = true -> place pk e <> Immut.
+Proof.
+  induction e as [id mu v IH|id mu|i|g|p IH f|p IH|p IH|p IH|p IH|p IH|m p IH|id|id| |id] using path_ind2;
+    intros a H; cbn [get_mutability place] in *; try discriminate.
+  - destruct mu; [discriminate|cbn in H; discriminate].
+  - destruct mu; [discriminate|cbn in H; discriminate].
+  - destruct (pk (PParam i)) as [[|]|]; destruct a; cbn in H; discriminate.
+  - (* PField *) cbn [orb] in H. apply through_pointer_not_immut in H. destruct H as [Hp Hr].
+    unfold through, is_pointer in *. destruct (pk p) as [[|]|].
+    + destruct (via_immut pk p); discriminate.
+    + congruence.
+    + exact (IH a Hr).
+  - (* PIndex *) cbn [orb] in H. apply through_pointer_not_immut in H. destruct H as [Hp Hr].
+    unfold through, is_pointer in *. destruct (pk p) as [[|]|].
+    + destruct (via_immut pk p); discriminate.
+    + congruence.
+    + exact (IH a Hr).
+  - (* PDeref *) apply through_pointer_not_immut in H. destruct H as [Hp _].
+    unfold through. destruct (pk p) as [[|]|]; [destruct (via_immut pk p); discriminate|congruence|discriminate].
+  - exact (IH a H).
+  - exact (IH a H).
+  - exact (IH a H).
+Qed.
+
+Theorem fixed_assign_sound e : assign_accepted true pk e = true -> place pk e <> Immut.
+Proof. apply fixed_sound_gen. Qed.
+Theorem fixed_ref_mut_sound e : ref_mut_accepted true pk e = true -> place pk e <> Immut.
+Proof. apply fixed_sound_gen. Qed.
+
+(* outside the suspect class the repair changes nothing (so completeness carries over) *)
+Lemma through_pointer_id p r :
+  (is_mutable r = true -> pk p <> Some false) -> through_pointer true pk p r = r.
+Proof.
+  unfold through_pointer. destruct r; auto. destruct (pk p) as [[|]|]; auto.
+  intros H. exfalso. apply H; reflexivity.
+Qed.
+
+Lemma fixed_eq_nonsuspect : forall e a d, susp e d = false -> gmx e a d = gm e a d.
+Proof.
+  induction e as [id mu v IH|id mu|i|g|p IH f|p IH|p IH|p IH|p IH|p IH|m p IH|id|id| |id] using path_ind2;
+    intros a d Hs; try reflexivity.
+  - destruct d; [|reflexivity]. cbn [suspect] in Hs. apply orb_false_iff in Hs. destruct Hs as [_ Hv].
+    cbn [get_mutability]. exact (IH false true Hv).
+  - (* PField *) destruct d; [reflexivity|]. cbn [suspect] in Hs. cbn [get_mutability orb].
+    unfold is_pointer in *. rewrite (IH a _ Hs).
+    unfold through_pointer at 2. cbn iota. apply through_pointer_id. intros Hm.
+    destruct (pk p) as [[|]|] eqn:Ep; try discriminate.
+    pose proof (gm_characterised p a true Hs) as Hc. cbn beta iota in Hc. apply Hc in Hm. congruence.
+  - (* PIndex *) destruct d; [cbn [suspect] in Hs; discriminate|]. cbn [suspect] in Hs. cbn [get_mutability orb].
+    unfold is_pointer in *. rewrite (IH a _ Hs).
+    unfold through_pointer at 2. cbn iota. apply through_pointer_id. intros Hm.
+    destruct (pk p) as [[|]|] eqn:Ep; try discriminate.
+    pose proof (gm_characterised p a true Hs) as Hc. cbn beta iota in Hc. apply Hc in Hm. congruence.
+  - (* PDeref *) destruct d; [cbn [suspect] in Hs; discriminate|]. cbn [suspect] in Hs. cbn [get_mutability].
+    rewrite (IH a true Hs). unfold through_pointer at 2. cbn iota. apply through_pointer_id. intros Hm.
+    pose proof (gm_characterised p a true Hs) as Hc. cbn beta iota in Hc. apply Hc in Hm. congruence.
+  - (* PParen *) cbn [get_mutability]. destruct d; cbn [suspect] in Hs.
+    + apply orb_false_iff in Hs. destruct Hs as [_ Hp]. exact (IH a true Hp).
+    + exact (IH a false Hs).
+  - (* PUnwrap *) cbn [get_mutability]. destruct d; cbn [suspect] in Hs; [discriminate|]. exact (IH a false Hs).
+  - (* PBlock *) cbn [get_mutability]. destruct d; cbn [suspect] in Hs.
+    + apply orb_false_iff in Hs. destruct Hs as [_ Hp]. exact (IH a true Hp).
+    + exact (IH a false Hs).
+Qed.
+
+Theorem fixed_assign_complete e :
+  susp e false = false -> place pk e = Mut -> assign_accepted true pk e = true.
+Proof.
+  intros Hs Hp. unfold assign_accepted. rewrite (fixed_eq_nonsuspect e true false Hs).
+  exact (assign_complete e Hs Hp).
+Qed.
+
+Theorem fixed_ref_mut_complete e :
+  susp e false = false -> place pk e = Mut -> ref_mut_accepted true pk e = true.
+Proof.
+  intros Hs Hp. unfold ref_mut_accepted. rewrite (fixed_eq_nonsuspect e false false Hs).
+  exact (ref_mut_complete e Hs Hp).
+Qed.
+
 End Proofs.
 
 (* ---- witnesses: the full statement is false of the code as it is ------------------- *)
 
 Definition full_sound : Prop := forall pk e,
-  typed pk e = true -> assign_accepted pk e = true -> place pk e <> Immut.
+  typed pk e = true -> assign_accepted false pk e = true -> place pk e <> Immut.
 Definition full_complete : Prop := forall pk e,
-  typed pk e = true -> place pk e = Mut -> assign_accepted pk e = true.
+  typed pk e = true -> place pk e = Mut -> assign_accepted false pk e = true.
 
 (* x :: 5; p := get(^x); p^ = 10     (get returns ^i32) *)
 Definition call_path : path := PDeref (PLocal 1 true (Some (PCall 7))).
 Definition imm_pk (_ : path) : option bool := Some false.   (* every pointer is `^` *)
 
 Lemma call_witness :
-  typed imm_pk call_path = true /\ assign_accepted imm_pk call_path = true
+  typed imm_pk call_path = true /\ assign_accepted false imm_pk call_path = true
   /\ place imm_pk call_path = Immut /\ suspect imm_pk call_path false = true.
 Proof. repeat split; vm_compute; reflexivity. Qed.
 
@@ -195,7 +287,7 @@ Definition index_path : path := PDeref (PIndex (PLocal 1 true (Some PLit))).
 Definition index_pk (p : path) : option bool :=
   match p with PIndex _ => Some false | _ => None end.
 Lemma index_witness :
-  typed index_pk index_path = true /\ assign_accepted index_pk index_path = true
+  typed index_pk index_path = true /\ assign_accepted false index_pk index_path = true
   /\ place index_pk index_path = Immut /\ suspect index_pk index_path false = true.
 Proof. repeat split; vm_compute; reflexivity. Qed.
 
@@ -213,7 +305,7 @@ Definition deref2_pk (p : path) : option bool :=
   | _ => None
   end.
 Lemma deref2_witness :
-  typed deref2_pk deref2_path = true /\ assign_accepted deref2_pk deref2_path = true
+  typed deref2_pk deref2_path = true /\ assign_accepted false deref2_pk deref2_path = true
   /\ place deref2_pk deref2_path = Immut /\ suspect deref2_pk deref2_path false = true.
 Proof. repeat split; vm_compute; reflexivity. Qed.
 
@@ -224,7 +316,7 @@ Definition param_index_pk (p : path) : option bool :=
 Lemma full_complete_refuted : ~ full_complete.
 Proof.
   intros H.
-  assert (E : assign_accepted param_index_pk param_index_path = true)
+  assert (E : assign_accepted false param_index_pk param_index_path = true)
     by (apply H; vm_compute; reflexivity).
   vm_compute in E. discriminate.
 Qed.
@@ -235,7 +327,14 @@ Definition field_pk (m : bool) (p : path) : option bool :=
   match p with PField (PLocal _ _ _) _ => Some m | _ => None end.
 Lemma example_ok :
   suspect (field_pk true) field_path false = false
-  /\ assign_accepted (field_pk true) field_path = true /\ place (field_pk true) field_path = Mut
+  /\ assign_accepted false (field_pk true) field_path = true /\ place (field_pk true) field_path = Mut
   /\ suspect (field_pk false) field_path false = false
-  /\ assign_accepted (field_pk false) field_path = false /\ place (field_pk false) field_path = Immut.
+  /\ assign_accepted false (field_pk false) field_path = false /\ place (field_pk false) field_path = Immut.
+Proof. repeat split; vm_compute; reflexivity. Qed.
+
+(* the three soundness witnesses are rejected by the repaired variant *)
+Lemma fixed_rejects_witnesses :
+  assign_accepted true imm_pk call_path = false
+  /\ assign_accepted true index_pk index_path = false
+  /\ assign_accepted true deref2_pk deref2_path = false.
 Proof. repeat split; vm_compute; reflexivity. Qed.
